@@ -188,6 +188,10 @@ class State:
             self.assume(z3.Not(cond))
             return False
         if not ft and not ff:
+            # the path condition itself is unsatisfiable: contradictory
+            # assumptions (reported by the driver: vacuity guard)
+            self.eng.inconsistent.append((label, ".".join(map(str,
+                                                               self.decisions))))
             raise PathEnd()
         c = self.choose(2, label)
         if c == 0:
@@ -231,6 +235,7 @@ class Engine:
         self.cur_node = None
         self.imports = {}
         self.used_assumptions: set = set()
+        self.inconsistent: list = []
         self.paths = 0
         from . import libspec
         self.lib = libspec.Lib(self)
